@@ -8,6 +8,7 @@ into an element tree.  Reader side: lookups (helper, constant tag, expected type
 import re
 
 from mirlib import *
+from mirlib import _ref_target
 from facts import Unusable
 from simple_rules import leaf_name
 
@@ -210,6 +211,13 @@ def _builder_of(fn, op, builders, hops=0):
         if len(ds) != 1 or len(fn.defs().get(n, [])) != 1:
             return None
         kind, payload = ds[0][0], ds[0][1]
+        if kind == "stmt" and payload["k"] == "use" and op_place(payload["op"]) is not None and any(
+                e["k"] == "field" and str(e.get("adt", "")).startswith("closure:") for e in op_place(payload["op"])["proj"]):
+            # `&mut xml` captured by a closure that was inlined here
+            tgt = _ref_target(fn, n)
+            if tgt is not None and tgt["local"] in builders and all(e["k"] == "deref" for e in tgt["proj"]):
+                return tgt["local"]
+            return None
         if kind == "stmt":
             if payload["k"] == "ref":
                 pl = payload["place"]
